@@ -14,7 +14,7 @@
 import AgeModel.GoSem
 import AgeModel.Armor
 import AgeModel.Extracted.Funcs
-import Proofs.GoTieFormat
+import Proofs.GoTieLines
 import Proofs.GoTieArmorSpace
 namespace AgeModel
 namespace GoTie
